@@ -688,6 +688,76 @@ pub fn run_c02(ctx: &Ctx) -> i32 {
             corpus::Outcome::Panic(p) => ctx.violation(&format!("panic:{}", panic_key(&p)), &p, json!({"spec": format!("{:?}", s)})),
         }
     }
+    // (b') name clashes across definition kinds: a definition of kind B (and all references to it) is renamed to the
+    // name of a definition of kind A; every kind has its own namespace, so the conversion must give the same model
+    let mut clash_n = 0;
+    {
+        let kinds: [(&str, &[&str]); 8] = [
+            ("DAY-SCHEDULE-PD", &["DAY-SCHEDULES"]),
+            ("WEEK-SCHEDULE-PD", &["WEEK-SCHEDULES"]),
+            ("SCHEDULE-PD", &["PEOPLE-SCHEDULE", "LIGHTING-SCHEDULE", "EQUIP-SCHEDULE", "HEAT-TEMP-SCH", "COOL-TEMP-SCH", "INF-SCHEDULE", "HEATING-SCHEDULE", "COOLING-SCHEDULE", "FAN-SCHEDULE", "SEASON-SCH"]),
+            ("MATERIAL", &["MATERIAL"]),
+            ("GLASS-TYPE", &["GLASS-TYPE"]),
+            ("NAME-FRAME", &["NAME-FRAME"]),
+            ("GAP", &["GAP"]),
+            ("POLYGON", &["POLYGON"]),
+        ];
+        let mut texts: Vec<(String, String)> = vec![("cubo.ctehexml".into(), corpus::read_utf8(&format!("{}/cubo/cubo.ctehexml", corpus::tests_dir())))];
+        texts.push(("generated".into(), crate::projgen::ctehexml_text(&crate::projgen::all_specs(Tier::Quick)[7])));
+        for (tname, text) in &texts {
+            let Some(b0) = text.find("<EntradaGraficaLIDER>") else { continue };
+            let lx = bdl::lex(text[b0..].trim_start_matches("<EntradaGraficaLIDER>").trim_start().trim_start_matches("<![CDATA["));
+            let base = convert_outcome(Fmt::Ctehexml, text);
+            for (ka, _) in kinds.iter() {
+                for (kb, refkeys) in kinds.iter() {
+                    if ka == kb {
+                        continue;
+                    }
+                    // only kinds of one family share a realistic namespace confusion; all ordered pairs are cheap anyway
+                    let Some(a) = lx.blocks.iter().find(|b| b.btype == *ka) else { continue };
+                    // a definition of kind B that is actually referenced somewhere
+                    let Some(b) = lx.blocks.iter().filter(|b| b.btype == *kb).find(|b| lx.blocks.iter().any(|x| x.attrs.iter().any(|(k, v)| refkeys.contains(&k.as_str()) && bdl::names_in(v).contains(&b.name)))) else { continue };
+                    if a.name == b.name {
+                        continue;
+                    }
+                    // rename: header of b, and every reference with one of B's reference keys
+                    let mut out = String::new();
+                    let mut cur_key_is_ref = false;
+                    for l in text.split_inclusive('\n') {
+                        let t = l.trim();
+                        let mut line = l.to_string();
+                        if t.starts_with(&format!("\"{}\"", b.name)) && t.ends_with(&format!("= {}", kb)) {
+                            line = l.replacen(&format!("\"{}\"", b.name), &format!("\"{}\"", a.name), 1);
+                        } else if let Some((k, _)) = t.split_once('=') {
+                            cur_key_is_ref = refkeys.contains(&k.trim());
+                            if cur_key_is_ref {
+                                line = l.replace(&format!("\"{}\"", b.name), &format!("\"{}\"", a.name));
+                            }
+                        } else if cur_key_is_ref && t.starts_with('"') {
+                            line = l.replace(&format!("\"{}\"", b.name), &format!("\"{}\"", a.name));
+                        }
+                        out.push_str(&line);
+                    }
+                    clash_n += 1;
+                    ctx.eval(1);
+                    ctx.nontriv(1);
+                    let v = convert_outcome(Fmt::Ctehexml, &out);
+                    let case = json!({"part": "name-clash", "project": tname, "renamed": format!("{} {:?} -> {:?} (the name of a {})", kb, b.name, a.name, ka)});
+                    match v["verdict"].as_str() {
+                        Some("ok") => {
+                            if v["n_defects"].as_u64().unwrap_or(0) > 0 || v["checker_warnings"].as_u64().unwrap_or(0) > 0 {
+                                ctx.violation(&format!("name-clash-yields-open-model:{}", v["defects"][0].as_str().unwrap_or("checker").split(':').next().unwrap_or("")), &format!("a {} named like a {} ({:?}): the model has missing/nil links: {}", kb, ka, a.name, v["defects"]), case);
+                            } else if v["census"] != base["census"] && base["verdict"] == "ok" {
+                                ctx.violation(&format!("name-clash-loses-items:{}~{}", kb, ka), &format!("a {} named like a {} ({:?}): census {} vs {} for the original names", kb, ka, a.name, v["census"], base["census"]), case);
+                            }
+                        }
+                        Some("panic") => ctx.violation(&format!("panic:{}", panic_key(v["panic"].as_str().unwrap_or(""))), &format!("name clash {} ~ {} panics: {}", kb, ka, v["panic"]), case),
+                        _ => {} // an error is an acceptable answer
+                    }
+                }
+            }
+        }
+    }
     // (c) single broken references / removed definitions
     let idxs = c02_indices(&st, ctx.tier);
     let tally = Mutex::new((0u64, 0u64, 0u64));
@@ -757,7 +827,7 @@ pub fn run_c02(ctx: &Ctx) -> i32 {
     if t.0 > 0 {
         ctx.outcome(&"still-ok");
     }
-    ctx.note("tally", json!({"project_files": nfiles, "converted": converted, "generated_projects": gen_n, "broken_reference_edits": idxs.len(), "rejected_with_error": t.1, "still_converted_to_identical_closed_model": t.0, "panicked": t.2}));
+    ctx.note("tally", json!({"project_files": nfiles, "converted": converted, "generated_projects": gen_n, "name_clash_variants": clash_n, "broken_reference_edits": idxs.len(), "rejected_with_error": t.1, "still_converted_to_identical_closed_model": t.0, "panicked": t.2}));
     if let Some(i) = idxs.get(idxs.len() / 2) {
         let fi = st.offsets.partition_point(|o| *o <= *i) - 1;
         ctx.sample(json!({"edit": st.files[fi].describe(*i - st.offsets[fi]).1}));
@@ -765,7 +835,7 @@ pub fn run_c02(ctx: &Ctx) -> i32 {
     ctx.sample(json!({"part": "closure", "file": "cubo.ctehexml", "oracle": "ids unique per collection, 17 reference kinds resolve, no nil id, bemodel::check empty"}));
     ctx.finish(
         "fault_enumeration",
-        "(a) every shipped project (12 .ctehexml with catalog, 56 legacy .cte with catalog + default general data) and generated projects: a successful conversion must be referentially closed; the same closure oracle on every numeric token -> 0 and -> -1 of the smallest project of each format (3 smallest in thorough) (ids unique per collection, 17 reference kinds resolve, no nil id) and silent under bemodel::check; (c) every project obtained by renaming one reference occurrence (attribute keys POLYGON, CONSTRUCTION, LAYERS, MATERIAL, GLASS-TYPE, NAME-FRAME, GAP, SPACE-/SYSTEM-CONDITIONS, NEXT-TO, DAY-/WEEK-SCHEDULES, *-SCHEDULE, *-TEMP-SCH, SPACE-TYPE) or removing one definition block (quick: the 3 smallest projects of each format; thorough: all): the outcome must be an error, or - when the broken name was not needed - a closed model with exactly the same census of elements and resolved links as the intact project; a model with missing/nil links, a silently dropped link, a panic or a timeout is a violation; non-trivial = conversion outcome differs from plain success",
+        "(a) every shipped project (12 .ctehexml with catalog, 56 legacy .cte with catalog + default general data) and generated projects: a successful conversion must be referentially closed; the same closure oracle on every numeric token -> 0 and -> -1 of the smallest project of each format (3 smallest in thorough) (ids unique per collection, 17 reference kinds resolve, no nil id) and silent under bemodel::check; (b') every ordered pair of definition kinds (day/week/year schedule, material, glazing, frame, gap, polygon): a referenced definition of one kind renamed, with its references, to the name of a definition of the other kind (cubo and one generated project) must convert to the same closed model or fail; (c) every project obtained by renaming one reference occurrence (attribute keys POLYGON, CONSTRUCTION, LAYERS, MATERIAL, GLASS-TYPE, NAME-FRAME, GAP, SPACE-/SYSTEM-CONDITIONS, NEXT-TO, DAY-/WEEK-SCHEDULES, *-SCHEDULE, *-TEMP-SCH, SPACE-TYPE) or removing one definition block (quick: the 3 smallest projects of each format; thorough: all): the outcome must be an error, or - when the broken name was not needed - a closed model with exactly the same census of elements and resolved links as the intact project; a model with missing/nil links, a silently dropped link, a panic or a timeout is a violation; non-trivial = conversion outcome differs from plain success",
         true,
         json!({}),
     )
